@@ -11,6 +11,7 @@ Inductive akind :=
 | AStaleToken           (* C05: a service request carries a token that is not the connection's current one *)
 | AWrongCid             (* C10: a service request made by connection c's worker carries another connection's id *)
 | ACidLeak              (* C10: a frame sent to a client contains a connection id *)
+| AWrongTokenReset      (* C10: a token-reset request was made for a connection whose token id no reset names *)
 | ANoReaccess           (* C06: a trigger was not followed by an access request for an affected direct subscription *)
 | ANoRevocation         (* C06: a non-grant re-access verdict was not followed by an unsubscribe event *)
 | ADeliveredDuringRecheck. (* C06: an event that reached the gateway after the trigger was delivered before the verdict *)
@@ -38,19 +39,28 @@ Record astate := {
   toks : list (conn * list nat);      (* tokens in effect since the last quiescent point, current first *)
   cur : option conn;                  (* connection whose worker runs the current task *)
   evpos : list (rid * list (sevent * nat));   (* service events with the position at which they reached the gateway *)
+  tids : list (conn * nat);           (* token id in effect per connection (0 = none) *)
+  tresets : list (list nat);          (* token ids named by the token resets seen so far *)
   aviols : list aviol;
   apos : nat
 }.
 
 Definition astate0 : astate :=
-  {| base := mstate0; areqs := []; invals := []; obligs := []; toks := []; cur := None; evpos := []; aviols := []; apos := 0 |}.
+  {| base := mstate0; areqs := []; invals := []; obligs := []; toks := []; cur := None; evpos := []; tids := []; tresets := [];
+     aviols := []; apos := 0 |}.
 
 Definition upd (st : astate) (b : mstate) (ar : list areq) (iv : list inval) (ob : list oblig) (tk : list (conn * list nat))
                (cu : option conn) (ep : list (rid * list (sevent * nat))) : astate :=
-  {| base := b; areqs := ar; invals := iv; obligs := ob; toks := tk; cur := cu; evpos := ep; aviols := aviols st; apos := apos st |}.
+  {| base := b; areqs := ar; invals := iv; obligs := ob; toks := tk; cur := cu; evpos := ep; tids := tids st; tresets := tresets st;
+     aviols := aviols st; apos := apos st |}.
+
+Definition set_tids (st : astate) (td : list (conn * nat)) (tr : list (list nat)) : astate :=
+  {| base := base st; areqs := areqs st; invals := invals st; obligs := obligs st; toks := toks st; cur := cur st; evpos := evpos st;
+     tids := td; tresets := tr; aviols := aviols st; apos := apos st |}.
 
 Definition aviol_add (st : astate) (k : akind) (c : conn) (r : rid) : astate :=
   {| base := base st; areqs := areqs st; invals := invals st; obligs := obligs st; toks := toks st; cur := cur st; evpos := evpos st;
+     tids := tids st; tresets := tresets st;
      aviols := aviols st ++ [{| av_kind := k; av_c := c; av_r := r; av_pos := apos st |}]; apos := apos st |}.
 
 Definition tokens_of (st : astate) (c : conn) : list nat :=
@@ -119,7 +129,7 @@ Definition check_delivery (st : astate) (c : conn) (r : rid) (d : sevent) : asta
 
 Definition astep (st : astate) (e : tev) : astate :=
   let st := {| base := base st; areqs := areqs st; invals := invals st; obligs := obligs st; toks := toks st; cur := cur st;
-               evpos := evpos st; aviols := aviols st; apos := S (apos st) |} in
+               evpos := evpos st; tids := tids st; tresets := tresets st; aviols := aviols st; apos := S (apos st) |} in
   (* checks that need the state before the reference client processes the frame *)
   let st :=
     if match frame_conn e with Some c => Client.mem c (gone (base st)) | None => false end then st else
@@ -161,6 +171,18 @@ Definition astep (st : astate) (e : tev) : astate :=
         upd st' (base st') (areqs st') ({| i_c := Some c; i_r := None; i_pos := apos st; i_settled := false |} :: invals st')
             (open_obligs st (fun c' _ => Nat.eqb c' c) ++ obligs st') (toks st') (cur st') (evpos st')
       else st'
+  | TTokenResetEv l => set_tids st (tids st) (l :: tresets st)
+  | TTokenTask c tok tid =>
+      let st := set_tids st (Client.set_k c tid (tids st)) (tresets st) in
+      (* from here on the token is in effect: every request made on the connection's behalf carries it, or one announced
+         after it (tokens are listed newest first) *)
+      let fix keep (l : list nat) : list nat * bool :=     (* the prefix up to the oldest occurrence of tok *)
+        match l with
+        | [] => ([], false)
+        | t :: l' => let '(k, f) := keep l' in
+                     if f then (t :: k, true) else if Nat.eqb t tok then ([t], true) else (t :: k, false)
+        end in
+      upd st (base st) (areqs st) (invals st) (obligs st) (Client.set_k c (fst (keep (tokens_of st c))) (toks st)) (cur st) (evpos st)
   | TMqEv r ev =>
       let l := match Client.lookup r (evpos st) with Some l => l | None => [] end in
       let st := upd st (base st) (areqs st) (invals st) (obligs st) (toks st) (cur st) (Client.set_k r (l ++ [(ev, apos st)]) (evpos st)) in
@@ -187,6 +209,11 @@ Definition astep (st : astate) (e : tev) : astate :=
         | None => st
         end in
       match t, c with
+      | MTokReset, Some c' =>
+          (* C10: only a connection whose current token id is named by some token reset is asked to renew *)
+          let tid := match Client.lookup c' (tids st) with Some t => t | None => 0 end in
+          if negb (Nat.eqb tid 0) && existsb (fun l => Client.mem tid l) (tresets st) then st
+          else aviol_add st AWrongTokenReset c' r
       | MAccess, Some c' =>
           let st := upd st (base st) ({| a_n := n; a_c := c'; a_r := r; a_tok := tok; a_pos := apos st; a_ans := None |} :: areqs st)
                         (invals st) (obligs st) (toks st) (cur st) (evpos st) in
